@@ -92,8 +92,28 @@ impl IntoData for i64 {
 
 impl IntoData for i128 {
     fn as_data(&self) -> PlutusData {
-        let int = Int::try_from(*self).unwrap();
-        PlutusData::BigInt(BigInt::Int(int))
+        // integers that fit the CBOR int range are encoded directly, larger ones as
+        // bignums: tag 2 carries n, tag 3 carries -1 - n, both as big-endian bytes
+        match Int::try_from(*self) {
+            Ok(int) => PlutusData::BigInt(BigInt::Int(int)),
+            Err(_) => {
+                let magnitude = if *self >= 0 {
+                    self.unsigned_abs()
+                } else {
+                    (!*self).unsigned_abs()
+                };
+
+                let bytes = magnitude.to_be_bytes();
+                let first = bytes.iter().position(|b| *b != 0).unwrap_or(bytes.len());
+                let bytes = BoundedBytes::from(bytes[first..].to_vec());
+
+                if *self >= 0 {
+                    PlutusData::BigInt(BigInt::BigUInt(bytes))
+                } else {
+                    PlutusData::BigInt(BigInt::BigNInt(bytes))
+                }
+            }
+        }
     }
 }
 
